@@ -1124,13 +1124,6 @@ Section WfStatements.
   Qed.
 End WfStatements.
 
-(* the guard of C11_partial: no crash shape in guards and path parameters (D11a, D11c), no
-   string attribute in a position where only numbers and booleans are accepted and no
-   parenthesised string operand (D20) *)
-Definition c11_guard (p : program) : bool :=
-  prog_all (fun E T e => expr_safe E T e) (fun E T x => param_access_safe E T x) p
-  && negb (sh_string_eq p).
-
 Theorem wf_accepted_under_guard : forall p, WF p -> c11_guard p = true -> validate p = Ok [].
 Proof.
   intros p HWF Hg. unfold c11_guard in Hg. apply andb_true_iff in Hg. destruct Hg as [Hsafe Hstr].
